@@ -86,4 +86,41 @@ PROPS = {
                 "operation-by-operation equality with an in-memory reference model; after a crash the store equals the "
                 "state before or after the in-flight commit. Non-trivial = the committed model ended non-empty.",
     },
+    "C09": {
+        "level": "exploration",
+        "quick_runs": 4000, "thorough_runs": 120000, "chunk": 125,
+        "thorough_params": {"ops": 100, "maxdepth": 8},
+        "nontrivial_stat": "check.pending_global.nonempty",
+        "rule": "one run = 1-2 wallets following a generated chain (mining with all payment kinds, forks of depth 1..D applied step by step, unconfirmed announcements incl. chains and conflicts, new addresses) with schedule-controlled delivery; at every quiescent point with all tips delivered the wallet is compared with the ledger model of the best chain and  the pending-set invariants are evaluated: the wallet's pending set (dumped through the store read API for "
+                "every transaction the harness ever produced that is not on the best chain) contains no confirmed "
+                "transaction, no transaction spending a wallet coin that a confirmed transaction spends, no orphan of a "
+                "vanished parent; every pending transaction reads back to the identical transaction; a wallet coin is "
+                "reported spent_by_unmined exactly when a pending transaction spends it; a relevant transaction announced "
+                "while the wallet was idle and in sync must be pending until it confirms or is conflicted (also after its "
+                "block is reorganised away). Non-trivial = a check with a non-empty pending set.",
+    },
+    "C10": {
+        "level": "exploration",
+        "quick_runs": 3000, "thorough_runs": 100000, "chunk": 100,
+        "thorough_params": {"ops": 100, "maxdepth": 8},
+        "nontrivial_stat": "check.games.nonempty",
+        "rule": "one run = 1-2 wallets following a generated chain (mining with all payment kinds, forks of depth 1..D applied step by step, unconfirmed announcements incl. chains and conflicts, new addresses) with schedule-controlled delivery; at every quiescent point with all tips delivered the wallet is compared with the ledger model of the best chain and  the staking and binding histories (with and without withdrawn entries) must equal the model's deposits "
+                "(amount, address / binding target, frozen period, height, withdrawn exactly while a best-chain transaction "
+                "spends them); lock knobs are small (frozen period 2-4, binding lock 2-6, warm-up height 3-12) and the run ends "
+                "with six single-block steps so every lock boundary is observed at h-1, h, h+1 through the withdrawable "
+                "balances; withdrawals built through the explicit-input API must carry exactly the block-relative "
+                "sequence consensus requires. Non-trivial = a comparison with at least one deposit.",
+    },
+    "C12": {
+        "level": "exploration",
+        "quick_runs": 3000, "thorough_runs": 100000, "chunk": 100,
+        "thorough_params": {"ops": 100, "maxdepth": 8},
+        "nontrivial_stat": "check.new_address",
+        "rule": "one run = 1-2 wallets following a generated chain (mining with all payment kinds, forks of depth 1..D applied step by step, unconfirmed announcements incl. chains and conflicts, new addresses) with schedule-controlled delivery; at every quiescent point with all tips delivered the wallet is compared with the ledger model of the best chain and  address invariants are evaluated with gap limits 2..7: every NewAddress result is new and equals the "
+                "independent key-chain derivation at the next index (standard or staking form); a request is refused "
+                "exactly when none of the last gap-limit addresses has chain history; every issued address is listed "
+                "in its class with a used flag consistent with payments on the best chain (also after forks that remove "
+                "first payments); finally a mnemonic restore on a fresh instance (index hint 0 or random) must find "
+                "every issued address that has chain history. Non-trivial = at least one address was issued and checked.",
+    },
 }
